@@ -128,8 +128,12 @@ def apply_pattern(element, pat):
             i = cands[(pat["cpos"] * len(cands)) // 4 % len(cands)]
             file_level = items[i][0] == "/begin" and items[i + 1][0] == "PROJECT"
             items[i][1] = max(1, items[i][1])
-            # (every second pattern indents the comment: the real tokenizer keeps the leading blanks in the comment token)
-            items.insert(i, [("    " if pat["cpos"] % 2 == 1 else "") + COMMENTS[pat["cmt"]], 1, False])
+            if pat["p1"] % 3 == 0 and i > 0 and pat["cmt"] in ("line", "block1", "block2"):
+                # the comment stands on the line of the item in front of it (e.g. `/end MEASUREMENT /* x */`)
+                items.insert(i, [COMMENTS[pat["cmt"]], 0, False])
+            else:
+                # (every second pattern indents the comment: the real tokenizer keeps the leading blanks in the comment token)
+                items.insert(i, [("    " if pat["cpos"] % 2 == 1 else "") + COMMENTS[pat["cmt"]], 1, False])
     out = []
     for i, (t, g, _) in enumerate(items):
         if i > 0:
